@@ -165,9 +165,13 @@ def run_unit(args):
             with core.time_limit(CASE_TIME_LIMIT):
                 res = list(check_bytes(cpu, b, fmts, psize, stats))
         except core.TimeLimit:
+            # a cap, not a verdict: the byte string is reported in the evidence as not judged
             stats["timeouts"] = stats.get("timeouts", 0) + 1
+            stats.setdefault("timeout_cases", []).append(b.hex())
             setattr(cpu.disassemble, "_disassembler__i", None)
-            res = [("timeout", "-", "-", "-", "decoding/formatting/executing %s did not finish within %d s" % (b.hex(), CASE_TIME_LIMIT))]
+            res = []
+            import gc
+            gc.collect()       # free what the interrupted operation built here, not inside the next cases' time budget
         for (phase, hook, mn, modestr, detail) in res:
             sig = make_sig(isa, mname, phase, hook, mn, modestr)
             fails.append(Failure(sig, detail, {"isa": isa, "mode": mode, "bytes": b.hex()}, rank=len(b)).to_json())
@@ -230,8 +234,10 @@ def run(tier, seed):
     U, info = units(tier)
     U = core.rotate(U, seed)
     res = core.pmap(run_unit, U, chunksize=1)
-    tot = {"cases": 0, "decoded": 0, "none": 0, "executed": 0, "specs": 0}
+    tot = {"cases": 0, "decoded": 0, "none": 0, "executed": 0, "specs": 0, "timeouts": 0}
+    slow = []
     for r in res:
+        slow += r["stats"].get("timeout_cases", [])
         for k in tot:
             tot[k] += r["stats"].get(k, 0)
         for f in r["fails"]:
@@ -239,7 +245,10 @@ def run(tier, seed):
     for f in broken_modules():
         rep.add(f)
     rep.failures.sort(key=lambda f: (f.sig, f.rank, f.case.get("bytes", "")))
+    if tot["timeouts"]:
+        rep.exhaustive = False
     rep.coverage.update({
+        "not_judged_over_time_limit": {"seconds": CASE_TIME_LIMIT, "count": tot["timeouts"], "bytes": sorted(set(slow))[:20]},
         "states": tot["cases"], "transitions": tot["decoded"] * 5 + tot["cases"],
         "traces_validated_against_impl": tot["cases"],
         "evaluations": tot["cases"], "distinct_nontrivial": tot["decoded"],
